@@ -22,7 +22,7 @@ Proof. rewrite <- repeat_cons. reflexivity. Qed.
 (* ------------------------------------------------------------------ the cell invariant: the q wire is the masked attribute *)
 Definition cell_ok (w : Z) (c : cell) : Prop := cell_q c = trunc w (cell_value c).
 
-Lemma cell_ok_init w : cell_ok w (cell0 0).
+Lemma cell_ok_init w : cell_ok w cell_zero.
 Proof. reflexivity. Qed.
 
 Lemma cell_ok_edge w he hr rv c d e r : cell_ok w (reg_edge w he hr rv c d e r).
